@@ -190,20 +190,25 @@ def _run_seeded(args) -> Dict[str, Any]:
 
 def _run_alpha(args) -> Dict[str, Any]:
     """alpha-rename the locals of one anchored function: the verdict set must not change"""
-    prop, qual, repo = args
+    prop, qual, repo = args[:3]
+    variant = args[3] if len(args) > 3 else "rename"
     global _BASE
     if _BASE is None or _BASE.repo != repo:
         _BASE = Program(repo)
     base = _BASE
-    from .alpha import local_names, rename_in_source
+    from .alpha import local_names, rename_in_source, structural_variant
     fn = base.funcs.get(qual)
-    rid = f"alpha:{qual}"
+    rid = f"alpha:{variant}:{qual}"
     if fn is None:
         return {"id": rid, "kind": "alpha", "status": "skipped"}
-    names = local_names(fn.node)
-    if not names:
-        return {"id": rid, "kind": "alpha", "status": "skipped"}
-    text = rename_in_source(fn.module.src, fn.node, names)
+    if variant == "rename":
+        names = local_names(fn.node)
+        if not names:
+            return {"id": rid, "kind": "alpha", "status": "skipped"}
+        text = rename_in_source(fn.module.src, fn.node, names)
+    else:
+        names = ()
+        text = structural_variant(fn.module.src, fn.node, variant)
     if not text:
         return {"id": rid, "kind": "alpha", "status": "skipped"}
     try:
@@ -214,14 +219,14 @@ def _run_alpha(args) -> Dict[str, Any]:
         b, _ = _viol(prop, base)
         v, _ = _viol(prop, base.with_override(fn.module.rel, text))
     except AnalysisError as e:
-        return {"id": rid, "kind": "alpha", "status": "FAILED", "why": f"anchor lost under renaming of locals: {e}"[:200]}
+        return {"id": rid, "kind": "alpha", "status": "FAILED", "why": f"anchor lost under the behaviour-preserving rewrite `{variant}`: {e}"[:200]}
     norm = lambda st: {(r, k.replace("_zq", "")) for r, k in st}
     fresh = sorted(norm(v) - norm(b))
     gone = sorted(norm(b) - norm(v))
     if fresh:
-        return {"id": rid, "kind": "alpha", "status": "FAILED", "why": f"renaming locals raised {fresh[:2]}"}
+        return {"id": rid, "kind": "alpha", "status": "FAILED", "why": f"behaviour-preserving rewrite `{variant}` raised {fresh[:2]}"}
     if gone:
-        return {"id": rid, "kind": "alpha", "status": "FAILED", "why": f"renaming locals hid {gone[:2]}"}
+        return {"id": rid, "kind": "alpha", "status": "FAILED", "why": f"behaviour-preserving rewrite `{variant}` hid {gone[:2]}"}
     return {"id": rid, "kind": "alpha", "status": "silent", "names": len(names)}
 
 
@@ -260,7 +265,7 @@ def run_for(prop: str, repo: str = REPO, jobs: Optional[int] = None) -> Dict[str
     jobs = jobs or max(1, min(16, len(cases) + len(seeded), os.cpu_count() or 4))
     work = [(prop, c, repo) for c in cases]
     swork = [(prop, c, repo) for c in seeded]
-    awork = [(prop, q, repo) for q in alpha_targets(prop, repo)]
+    awork = [(prop, q, repo, v) for q in alpha_targets(prop, repo) for v in ("rename", "ifswap", "rettmp")]
     jobs = max(jobs, min(16, len(awork)))
     if jobs > 1:
         with ProcessPoolExecutor(max_workers=jobs) as ex:
